@@ -15,17 +15,20 @@ Lemma wfin_parent w u p : WFin w -> member w u -> k_parent (gett w u) = Some p -
   member w p /\ In u (k_children (gett w p)).
 Proof.
   intros Hw Hm Hp. pose proof (wfin_member w u Hw Hm) as H. unfold wfin_member_b in H.
-  do 9 (apply andb_true_iff in H; destruct H as [H _]). apply andb_true_iff in H. destruct H as [_ H].
-  rewrite Hp in H. apply andb_true_iff in H. destruct H as [H H3]. apply andb_true_iff in H. destruct H as [H1 H2].
-  unfold in_range in H1. apply Nat.ltb_lt in H1. unfold is_ext in H2. apply negb_true_iff in H2.
-  apply memb_true in H3. split; [split|]; assumption.
+  rewrite Hp in H. wf_split.
+  match goal with X : in_range w p = true |- _ => rename X into Hpr end.
+  match goal with X : negb (is_ext w p) = true |- _ => rename X into Hpe end.
+  match goal with X : memb u (k_children (gett w p)) = true |- _ => rename X into Hpc end.
+  unfold in_range in Hpr. apply Nat.ltb_lt in Hpr. unfold is_ext in Hpe. apply negb_true_iff in Hpe.
+  apply memb_true in Hpc. split; [split|]; assumption.
 Qed.
 
 Lemma wfin_not_own_ancestor w u : WFin w -> member w u -> ~ In u (ancestors w (length w) u).
 Proof.
   intros Hw Hm. pose proof (wfin_member w u Hw Hm) as H. unfold wfin_member_b in H.
-  do 8 (apply andb_true_iff in H; destruct H as [H _]). apply andb_true_iff in H. destruct H as [_ H].
-  apply negb_true_iff in H. apply memb_false in H. exact H.
+  wf_split.
+  match goal with X : negb (memb u (ancestors w (length w) u)) = true |- _ => rename X into Ha end.
+  apply negb_true_iff in Ha. apply memb_false in Ha. exact Ha.
 Qed.
 
 Lemma anc_mono w f : forall y x, In x (ancestors w f y) -> In x (ancestors w (S f) y).
@@ -184,3 +187,70 @@ Proof.
   intros Hw He. apply (C14_err_hierarchy_cycle_backward_holds cfg w A B P Hw He).
   apply wfin_under_root; [exact Hw | apply ext_out_of_range; exact He | exact He].
 Qed.
+
+(* ---------- statements in the shape of the Props file ---------- *)
+Lemma C14_compute_no_crash_holds : forall cfg w ds l t b k,
+  kids_full w ds t -> fwd_compute cfg w ds l t b <> Crash k /\ bwd_compute cfg w ds l t b <> Crash k.
+Proof. intros cfg w ds l t b k H. exact (conj (fwd_compute_no_crash cfg w ds l t b k H) (bwd_compute_no_crash cfg w ds l t b k H)). Qed.
+
+Lemma C14_err_isolated_holds : forall cfg w, isolated_ok w = false -> forward cfg w = Err /\ backward cfg w = Err.
+Proof. intros cfg w H. exact (conj (C14_err_isolated_forward cfg w H) (C14_err_isolated_backward cfg w H)). Qed.
+
+Lemma C14_err_no_capacity_holds : forall cfg w t rest,
+  WFin w -> k_children (gett w t) = [] -> k_milestone (gett w t) = false ->
+  (forall d, cap cfg (k_res (gett w t)) d <= 0) ->
+  (roots w = t :: rest -> k_start (gett w t) = None -> forward cfg w = Err)
+  /\ (rev (roots w) = t :: rest -> k_end (gett w t) = None -> backward cfg w = Err).
+Proof.
+  intros cfg w t rest Hw Hl Hm Hc. split; intros Hr Hd.
+  - exact (C14_err_no_capacity_forward_holds cfg w t rest Hw Hr Hl Hm Hd Hc).
+  - exact (C14_err_no_capacity_backward_holds cfg w t rest Hw Hr Hl Hm Hd Hc).
+Qed.
+
+Lemma C14_err_cycle_holds : forall cfg w u,
+  WFin w -> k_ext (gett w u) = false ->
+  (clos_trans nat (fwaits w) u u -> forward cfg w = Err) /\ (clos_trans nat (bwaits w) u u -> backward cfg w = Err).
+Proof.
+  intros cfg w u Hw He. split; intros Hc;
+    [exact (C14_err_cycle_forward_wf cfg w u Hw He Hc) | exact (C14_err_cycle_backward_wf cfg w u Hw He Hc)].
+Qed.
+
+Lemma C14_err_hierarchy_cycle_holds : forall cfg w A B P,
+  WFin w -> k_ext (gett w P) = false -> In A (k_children (gett w P)) ->
+  (In B (k_preds (gett w A)) -> In P (k_preds (gett w B)) -> forward cfg w = Err)
+  /\ (k_parent (gett w A) = Some P -> In A (k_succs (gett w B)) -> In B (k_succs (gett w P)) -> backward cfg w = Err).
+Proof.
+  intros cfg w A B P Hw He HA. split.
+  - intros HB HP. exact (C14_err_hierarchy_cycle_forward_wf cfg w A B P Hw He HA HB HP).
+  - intros Hp HB HP. exact (C14_err_hierarchy_cycle_backward_wf cfg w A B P Hw He HA Hp HB HP).
+Qed.
+
+Lemma C14_reentry_holds : forall w deps kids bnd compute fuel st t,
+  k_ext (gett w t) = false -> memb t (calc st) = false -> memb t (inprog st) = true ->
+  gpass w deps kids bnd compute (S fuel) st t = Err
+  /\ forall (f : sst -> nat -> res sst) l1 a l2 s s1,
+       fold_res f l1 s = Ok s1 -> f s1 a = Err -> fold_res f (l1 ++ a :: l2) s = Err.
+Proof.
+  intros w deps kids bnd compute fuel st t H1 H2 H3. split.
+  - exact (gpass_reentry w deps kids bnd compute fuel st t H1 H2 H3).
+  - exact (@fold_res_err_propagates sst nat).
+Qed.
+
+Lemma C14_divisors_positive_holds : forall cfg l r t x left l' s,
+  (forall y, In y l -> 0 < r_units y) ->
+  (fwd_nearest cfg l r t x = Ok s ->
+     exists d, s = DAY * d + frac (used (balance cfg) l r d t) (cap cfg r d) /\ 0 < cap cfg r d)
+  /\ (bwd_nearest cfg l r t x = Ok s ->
+     exists d, s = DAY * (d + 1) - frac (used (balance cfg) l r d t) (cap cfg r d) /\ 0 < cap cfg r d)
+  /\ (0 < left -> fwd_shift cfg l r t x left = Ok (l', s) ->
+     exists d, s = DAY * d + frac (used (balance cfg) l' r d t) (cap cfg r d) /\ 0 < cap cfg r d)
+  /\ (0 < left -> bwd_shift cfg l r t x left = Ok (l', s) ->
+     exists d, s = DAY * (d + 1) - frac (used (balance cfg) l' r d t) (cap cfg r d) /\ 0 < cap cfg r d).
+Proof.
+  intros cfg l r t x left l' s Hpos. split; [|split; [|split]].
+  - exact (fwd_nearest_divisor cfg l r t x s Hpos).
+  - exact (bwd_nearest_divisor cfg l r t x s Hpos).
+  - exact (fwd_shift_divisor cfg l r t x left l' s Hpos).
+  - exact (bwd_shift_divisor cfg l r t x left l' s Hpos).
+Qed.
+
